@@ -338,13 +338,18 @@ func main() {
 
 	addLookup := func(class string, defs []def, rq request, m int, globOff bool) {
 		for _, d := range defs {
-			if !keyDomain(d.Host) || !globDomain(d.Path) {
+			// with glob matching disabled a host key is a literal name: brackets (IPv6 literals) are modelled there
+			okKey := keyDomain(d.Host)
+			if globOff {
+				okKey = printable(d.Host) && !strings.HasPrefix(d.Host, ":")
+			}
+			if !okKey || !globDomain(d.Path) {
 				run.Exclude("route host/path with class, alternation or escape syntax (outside the glob model)")
 				return
 			}
 		}
-		if !hostDomain(rq.Host) || !printable(rq.URI) {
-			run.Exclude("request host/path outside printable ASCII or with brackets")
+		if !printable(rq.Host) || !printable(rq.URI) {
+			run.Exclude("request host/path outside printable ASCII")
 			return
 		}
 		t, text, err := buildTable(defs)
@@ -407,6 +412,53 @@ func main() {
 			}
 		}
 		labels = saved
+	}
+
+	// 1b'. IPv6 literals (own random stream): bracketed host keys with and without default and
+	// other ports under glob-off (literal keys), request hosts [addr], [addr]:80, [addr]:443,
+	// [addr]:8080, upper-case hex, the bare address, zone ids; under glob-on the same requests
+	// against wildcard / exact / host-less keys without brackets
+	{
+		r6 := rand.New(rand.NewSource(run.Seed*7477 + 5))
+		addrs := []string{"::1", "2001:db8::1", "2001:db8::2", "fe80::1%eth0", "::ffff:10.0.0.1", "2001:DB8::A"}
+		reqForms := func(a string) []string {
+			return []string{"[" + a + "]", "[" + a + "]:80", "[" + a + "]:443", "[" + a + "]:8080", "[" + strings.ToUpper(a) + "]:80",
+				a, "[" + a + "]:", "[" + a, a + "]:80", "[" + a + "]:80:80", "[[" + a + "]]:80"}
+		}
+		paths := []string{"/", "/foo", "/foo/bar"}
+		n6 := run.Scale(60, 1500)
+		for i := 0; i < n6; i++ {
+			a := addrs[r6.Intn(len(addrs))]
+			b := addrs[r6.Intn(len(addrs))]
+			var defs []def
+			globOff := i%3 != 2
+			if globOff {
+				keys := []string{"[" + a + "]", "[" + a + "]:80", "[" + a + "]:443", "[" + b + "]:8080", "[" + strings.ToUpper(b) + "]", "", a, "x.com"}
+				r6.Shuffle(len(keys), func(x, y int) { keys[x], keys[y] = keys[y], keys[x] })
+				for _, k := range keys[:2+r6.Intn(5)] {
+					for _, p := range paths[:1+r6.Intn(3)] {
+						defs = append(defs, def{Host: k, Path: p})
+					}
+				}
+			} else {
+				keys := []string{"*", "*:80", "*:8080", "", "x.com", "*1*", "*:443"}
+				r6.Shuffle(len(keys), func(x, y int) { keys[x], keys[y] = keys[y], keys[x] })
+				for _, k := range keys[:2+r6.Intn(4)] {
+					for _, p := range paths[:1+r6.Intn(3)] {
+						defs = append(defs, def{Host: k, Path: p})
+					}
+				}
+			}
+			forms := reqForms(a)
+			for k := 0; k < 4; k++ {
+				h := forms[r6.Intn(len(forms))]
+				if k == 0 { // the form the class is about: literal with the default port of the connection
+					h = "[" + a + "]" + []string{":80", ":443"}[i%2]
+				}
+				rq := request{Host: h, TLS: (i+k)%2 == 1, URI: []string{"/", "/foo/bar", "/x"}[r6.Intn(3)]}
+				addLookup("ipv6-literal-hosts/"+map[bool]string{false: "glob-on", true: "glob-off"}[globOff], defs, rq, []int{0, 0, 1}[r6.Intn(3)], globOff)
+			}
+		}
 	}
 
 	// 1c. the [n == 0 -> nil] branch of Table.lookup: routes emptied by hand
@@ -990,8 +1042,9 @@ func main() {
 	for i := 0; i < run.Scale(60, 2000); i++ {
 		rhp = append(rhp, keyFor(r, randHost(r), ports[r.Intn(len(ports))]))
 	}
+	rhp = append(rhp, "[::1]:80", "[::1]", "[::1]:", "[2001:db8::1]:443", "[::1", "::1]:80", "[::1]:80:80", "[[::1]]:80", "[]:80", "[a]b:80", "[::1]x", "[fe80::1%eth0]:8080", "a[b]:80", "[:80", "]:80", "[a]:b]")
 	for _, s := range rhp {
-		if !hostDomain(s) {
+		if !printable(s) {
 			continue
 		}
 		run.Add("reverse-host-port", vh.App("CRhp", vh.HxS(s), vh.HxS(route.ReverseHostPort(s))),
